@@ -29,3 +29,16 @@ func pick[T any](r *Rng, xs []T) T { return xs[r.Intn(len(xs))] }
 // Fork gives an independent stream (per case), so that cases are stable under
 // changes of how many numbers an earlier case consumed.
 func (r *Rng) Fork() *Rng { return &Rng{s: r.Next()} }
+
+// Perm: a permutation of 0..n-1
+func (r *Rng) Perm(n int) []int {
+	p := make([]int, n)
+	for i := range p {
+		p[i] = i
+	}
+	for i := n - 1; i > 0; i-- {
+		j := r.Intn(i + 1)
+		p[i], p[j] = p[j], p[i]
+	}
+	return p
+}
